@@ -35,7 +35,7 @@ RULE = (
     "of the clean output, and a clean call on the same closure follows. (3) Schedules: 2-3 threads with drawn "
     "create/use programs start from cold caches under a deterministic line-granularity scheduler (sys.settrace in "
     "src/kio, token passing); the interleaving is a drawn list of <=3 preemptions (global step, target thread); "
-    "additionally ONE preemption is swept over EVERY step of fixed two/three-thread programs (warm and cold caches, two different values of one class) exhaustively, and EVERY PAIR of preemptions (park thread 0 at k1, park thread 1 at k2, resume 0, then 1) is swept over a warm two-thread program whose values hold multi-item arrays. (4) Orders: in 4 (quick) / 14 (thorough) fresh processes the readers and writers of ALL 1629 classes are created and used in a different order (forward, reverse, seeded shuffles); per class up to 12 fixed calls (decode of a populated, a zero, a conforming explicit-default/explicit-null and up to three null-in-non-nullable encodings; encode of the corresponding instances) must have the same outcome (value or exception type) in every order; a difference is bisected to the earlier class that causes it. (5) Repetition: for 32 classes one cached writer and one cached reader are called 20000 (quick) / 300000 (thorough) times each on a populated value; every result must equal the reference encoding / the value. Non-trivial = history with a failed call "
+    "additionally ONE preemption is swept over EVERY step of fixed two/three-thread programs (warm and cold caches, two different values of one class) exhaustively, and EVERY PAIR of preemptions (park thread 0 at k1, park thread 1 at k2, resume 0, then 1) is swept over a warm two-thread program whose values hold multi-item arrays. (4) Orders: in 4 (quick) / 14 (thorough) fresh processes the readers and writers of ALL 1629 classes are created and used in a different order (forward, reverse, seeded shuffles); per class up to 12 fixed calls (decode of a populated, a zero, a conforming explicit-default/explicit-null and up to three null-in-non-nullable encodings; encode of the corresponding instances) must have the same outcome (value or exception type) in every order; a difference is bisected to the earlier class that causes it. (5) Repetition: for 32 classes one cached writer and one cached reader are called 20000 (quick) / 300000 (thorough) times each on a populated value; every result must equal the reference encoding / the value; and for 6 classes 70000 (quick) / 600000 (thorough) DISTINCT values (every string, bytes, uuid and wide integer unique) go through one reader/writer pair, each must re-encode to its reference bytes, and the first 64 are decoded again afterwards. Non-trivial = history with a failed call "
     "followed by a successful call on the same closure / fault k strictly inside the call / schedule with >=1 "
     "preemption landing inside entity_reader/entity_writer construction or read_entity/write_entity; distinct by hash."
 )
@@ -954,6 +954,91 @@ def repetition(path: str, n: int) -> list[tuple[str, str]]:
     return out
 
 
+def varied_tree(cd: D.ClassDesc, i: int) -> dict:
+    """Like populated_tree(cd, 1, .) but every string/bytes/uuid value is unique to i (values no table has seen before)."""
+    from ..refcodec import Present
+
+    t = {}
+    for f in cd.fields:
+        if f.kind == "struct":
+            make = lambda f=f: varied_tree(f.struct, i)  # noqa: E731
+        elif f.kind == "float64":
+            make = lambda: (i + 1).to_bytes(8, "big")  # noqa: E731  (a finite, mostly subnormal, double)
+        elif f.kind == "uuid":
+            make = lambda: (i + 1).to_bytes(16, "big")  # noqa: E731
+        elif f.kind in ("string", "bytes", "records"):
+            make = lambda f=f: b"%s-%d" % (f.name[:6].encode(), i)  # noqa: E731
+        elif f.kind == "bool":
+            make = lambda: i & 1  # noqa: E731
+        elif f.kind == "error_code":
+            make = lambda: 3  # noqa: E731
+        elif f.kind in ("datetime_i64", "timedelta_i64", "timedelta_i32", "int32", "int64", "uint32", "uint64"):
+            make = lambda: i  # noqa: E731
+        else:
+            make = lambda: i % 100  # noqa: E731
+        v = [make()] if f.array else make()
+        t[f.name] = Present(v) if f.tag is not None else v
+    return t
+
+
+FLOOD_CLASSES = ["kio.schema.request_header.v2.header:RequestHeader", "kio.schema.metadata.v12.request:MetadataRequest",
+                 "kio.schema.metadata.v12.response:MetadataResponse", "kio.schema.fetch.v12.request:FetchRequest",
+                 "kio.schema.produce.v3.request:ProduceRequest", "kio.schema.find_coordinator.v4.request:FindCoordinatorRequest"]
+
+
+def flood(path: str, n: int, keep: int = 64) -> list[tuple[str, str]]:
+    """n DISTINCT values through one cached reader/writer pair, then the first `keep` inputs again: size-triggered state
+    (interning tables, bounded caches, pools) must not change any result."""
+    cd = D.describe(D.resolve(path))
+    clear_caches()
+    writer = K.entity_writer(cd.cls)
+    reader = K.entity_reader(cd.cls)
+    kept = []
+
+    def one(i: int, where: str):
+        data = ref_encode(cd, varied_tree(cd, i))
+        src = io.BytesIO(data)
+        got = reader(src)
+        buf = io.BytesIO()
+        writer(buf, got)
+        if src.tell() != len(data) or buf.getvalue() != data:
+            return [("flood:decode-encode-differs", f"{path}: value #{i} {where}: {len(data)} reference bytes {data.hex()[:160]} decoded to "
+                     f"{got!r:.300} which encodes to {buf.getvalue().hex()[:160]}")]
+        if i < keep:
+            if where == "first pass":
+                kept.append(got)
+            elif not py_equal(got, kept[i]):
+                return [("flood:decode-differs-afterwards", f"{path}: value #{i} decoded to {kept[i]!r:.300} at first and to {got!r:.300} "
+                         f"after {n} distinct values went through the same reader")]
+        return []
+
+    try:
+        for i in range(n):
+            fails = one(i, "first pass")
+            if fails:
+                return fails
+        for i in range(keep):
+            fails = one(i, "second pass")
+            if fails:
+                return fails
+        return []
+    finally:
+        clear_caches()
+
+
+def _flood_worker(task):
+    path, n = task
+    rep = Report(prop=ID, level="exploration", rule=RULE)
+    fails = flood(path, n)
+    rep.evaluations += n + 64
+    rep.nontrivial.add(case_hash(("flood", path, n)))
+    rep.extra["counters"] = {"flood_values": n}
+    for sig, msg in fails:
+        rep.add_failure(Failure(sig, msg, {"kind": "flood", "class": path, "n": n}, 1))
+    return rep
+
+
+
 def _repeat_worker(task):
     paths, n = task
     rep = Report(prop=ID, level="exploration", rule=RULE)
@@ -1008,6 +1093,9 @@ def run(ctx: Ctx) -> Report:
     rpaths = paths[:32]
     for rep in pool_map(_repeat_worker, [(rpaths[i::shards], n_rep) for i in range(shards)]):
         total.merge(rep)
+    n_flood = 70000 if ctx.quick else 600000
+    for rep in pool_map(_flood_worker, [(p, n_flood) for p in FLOOD_CLASSES]):
+        total.merge(rep)
     c = total.extra.get("counters", {})
     if c.get("preemptions_landed", 0) < c.get("schedules", 0) // 2:
         raise HarnessError(f"generator health: only {c.get('preemptions_landed')} preemptions landed in {c.get('schedules')} schedules")
@@ -1030,6 +1118,8 @@ def replay(case):
         return eval_schedule(case["items"], programs, [tuple(p) for p in case["preemptions"]])[0]
     if kind == "repeat":
         return repetition(case["class"], case["n"])
+    if kind == "flood":
+        return flood(case["class"], case["n"])
     if kind == "order":
         alone, after = order_pair_differs(case.get("first"), case["then"], case["label"])
         if alone != after:
